@@ -60,6 +60,20 @@ def pytree_sessions(rng, n):
                             {"kind": "tree", "leaf": ["arr", "Float", "?a b"], "structure": "T", "value": [cont, leaves]},
                             {"kind": "tree", "leaf": ["arr", "Float", "a b"], "structure": None, "value": [cont, leaves]},
                             {"kind": "arr", "dim": "b", "shape": [7]}]})
+    AR_ = lambda *sh: ["a", list(sh), "float32"]
+    # a broadcastable variadic axis bound BEFORE the tree; an earlier leaf widens it, a later leaf fails or raises: the binding must be back
+    # to what it was (value and `#` flag)
+    out.append({"nocontext": False, "steps": [{"kind": "arr", "dim": "*#b", "shape": [1, 3]}, {"kind": "tree", "leaf": ["arr", "Float", "*#b"], "structure": None, "value": ["t", [AR_(2, 3), AR_(5, 3)]]},
+                                              {"kind": "arr", "dim": "*b", "shape": [1, 3]}]})
+    out.append({"nocontext": False, "steps": [{"kind": "arr", "dim": "*#b c", "shape": [1, 3, 4]}, {"kind": "tree", "leaf": ["union", [["arr", "Float", "*#b c"], ["arr", "Float", "q+1"]]], "structure": None, "value": ["l", [AR_(2, 3, 4), AR_(9,)]]},
+                                              {"kind": "arr", "dim": "*#b c", "shape": [7, 3, 4]}]})
+    out.append({"nocontext": False, "steps": [{"kind": "arr", "dim": "*#b", "shape": [1, 3]}, {"kind": "tree", "leaf": ["arr", "Float", "*b"], "structure": "T", "value": ["t", [AR_(1, 3), AR_(2, 3)]]},
+                                              {"kind": "arr", "dim": "*#b", "shape": [4, 3]}]})
+    # a STRUCTURED PyTree inside the leaf type of an unstructured one: an earlier leaf binds S, a later leaf fails / raises -- S must be gone
+    out.append({"nocontext": False, "steps": [{"kind": "tree", "leaf": ["tuple", [["pytree", "int", "S"], "str"]], "structure": None, "value": ["l", [["t", [["l", [["i", 1], ["i", 2]]], ["s", "x"]]], ["t", [["l", [["i", 1]]], ["i", 3]]]]]},
+                                              {"kind": "tree", "leaf": "int", "structure": "S", "value": ["l", [["i", 1], ["i", 2], ["i", 3]]]}]})
+    out.append({"nocontext": False, "steps": [{"kind": "tree", "leaf": ["tuple", [["pytree", "int", "S"], ["pytree", "int", "S Q"]]], "structure": None, "value": ["l", [["t", [["l", [["i", 1], ["i", 2]]], ["i", 5]]]]]},
+                                              {"kind": "tree", "leaf": "int", "structure": "S", "value": ["t", [["i", 1]]]}]})
     out.append({"nocontext": False, "steps": [{"kind": "tree", "leaf": "int", "structure": "S T", "value": ["t", [["i", 1]]]}]})
     out.append({"nocontext": False, "steps": [{"kind": "tree", "leaf": "int", "structure": "T", "value": ["t", [["i", 1]]]}, {"kind": "tree", "leaf": "int", "structure": "T U ...", "value": ["t", [["i", 1]]]}]})
     out.append({"nocontext": False, "steps": [{"kind": "tree", "leaf": ["arr", "Float", "a q+1"], "structure": "T", "value": ["t", [["a", [2, 3], "float32"]]]}]})
